@@ -135,4 +135,13 @@ def run(tier, seed):
         if drv:
             cases = make_cases(seed + len(fl), n)
             campaign(res, h, drv, cases + generated_cases(cases[:max(600, n // 5)], gen_names), fl)
+    # the refusal of the zero class must not depend on assertions being compiled in: a slice of the same requests
+    # (zero class first) on a -DNDEBUG build
+    h, err = build_harness("ndebug")
+    if err:
+        res.broken.append(("harness build (ndebug)", err))
+    elif drv:
+        cases = make_cases(seed + 77, 600)
+        zero = [c for c in cases if "expect_err" in c]
+        campaign(res, h, drv, zero + cases[:300], "ndebug")
     return res.finish()
